@@ -535,13 +535,17 @@ class Array(metaclass=MetaArray):
                 # bring the axes in memory order (slowest first)
                 value = value.transpose(info.order)
             buffer.update_from_nplike(coffset, cls._itemtype._dtype, value)
-        elif isinstance(value, cls) and not cls._has_refs:
-            if value._size == info.size:
-                buffer.update_from_xbuffer(
-                    offset, value._buffer, value._offset, value._size
-                )
-            else:
-                raise ValueError("Value {value} not compatible size")
+        elif (
+            isinstance(value, cls)
+            and not cls._has_refs
+            and value._size == info.size
+        ):
+            # same layout: binary copy
+            buffer.update_from_xbuffer(
+                offset, value._buffer, value._offset, value._size
+            )
+            # (a source whose items were shortened in place occupies more
+            # than the planned size: it is copied item by item below)
         elif value is None:  # no value to initialize
             if is_scalar(cls._itemtype):
                 pass  # leave uninitialized
